@@ -1053,8 +1053,12 @@ class YAMLPath:
 
         Returns:  (str) `section` with all special symbols escaped
         """
-        return YAMLPath.ensure_escaped(
+        escaped: str = YAMLPath.ensure_escaped(
             section,
             '\\', str(pathsep), '(', ')', '[', ']', '^', '$', '%',
             ' ', "'", '"'
         )
+        if escaped.startswith("/") and str(pathsep) != "/":
+            # A leading forward-slash would switch the inferred separator
+            escaped = "\\" + escaped
+        return escaped
